@@ -75,6 +75,30 @@ def run_durable(ctx, *, model, programs, oracle_fns, n_random_progs=(6, 60), n_s
     return execs
 
 
+def fault_enumeration(ctx, names, oracle_fns, faults=None, latencies=(0.0, 0.3), seed_salt=606):
+    """every program x every checkpoint API call index x error class x API latency"""
+    from harness.backend import FAULTS
+    rng = random.Random(ctx.seed + seed_salt)
+    faults = faults or (list(FAULTS) if not ctx.quick else ["throttle429", "invalid_param", "invalid_token"])
+    items = []
+    for nm in names:
+        prog = CURATED[nm] if isinstance(nm, str) else nm
+        e0 = Execution(prog, {"seed": 1}).run()
+        ncalls = e0.backend.api_calls
+        for k in range(1, ncalls + 1):
+            for f in faults:
+                for lat in latencies:
+                    for rep in range(1 if ctx.quick else 3):
+                        items.append((prog, {"seed": rng.randrange(1 << 30), "faults": {str(k): f},
+                                             "strategy": "pct" if rep else "random", "max_inv": 14, "api_latency": lat}))
+    ex = run_campaign(ctx, items)
+    ctx.notes["fault_positions"] = ctx.notes.get("fault_positions", 0) + len(items)
+    for e in ex:
+        for fn in oracle_fns:
+            fn(ctx, e)
+    return ex
+
+
 def replay_execution(d):
     sc = d["replay"]
     if sc.get("kind") != "execution":
